@@ -206,7 +206,11 @@ fn cmd_env(a: &Args) {
 fn cmd_tips(a: &Args) {
     let mut out = Out::new(&a.s("out", "tips.ndjson"));
     let net = drive::net_of(&a.s("net", "custom02"));
-    tipdrive::tip_history(&mut out, &a.s("tag", "tips"), a.u64("seed", 1), net);
+    if a.s("net", "custom02") == "genesis" {
+        tipdrive::genesis_configs(&mut out, &a.s("tag", "genesis"));
+    } else {
+        tipdrive::tip_history(&mut out, &a.s("tag", "tips"), a.u64("seed", 1), net);
+    }
     let n = out.finish();
     println!("{}", json!({"records": n}));
 }
